@@ -157,7 +157,7 @@ var (
 )
 
 func emit(k int, v string, t string, xv string, xt string) {
-	fmt.Printf("%d v=%x t=%s xv=%x xt=%s\n", k, v, t, xv, xt)
+	fmt.Printf("%d\tv=%x\tt=%s\txv=%x\txt=%s\n", k, v, t, xv, xt)
 }
 `
 
